@@ -92,11 +92,20 @@ func (z *ZodDiscriminatedUnion[T, R]) Parse(input any, ctx ...*core.ParseContext
 
 	m, ok := input.(map[string]any)
 	if !ok {
+		var prefault any
+		hasPrefault := false
 		if z.internals.PrefaultFunc != nil {
-			return z.Parse(z.internals.PrefaultFunc(), pctx)
+			prefault, hasPrefault = z.internals.PrefaultFunc(), true
+		} else if z.internals.PrefaultValue != nil {
+			prefault, hasPrefault = engine.CloneDefaultValue(z.internals.PrefaultValue), true
 		}
-		if z.internals.PrefaultValue != nil {
-			return z.Parse(engine.CloneDefaultValue(z.internals.PrefaultValue), pctx)
+		if hasPrefault {
+			// A prefault that is not an object either would come back here
+			// forever: it is reported as the invalid input it is.
+			if _, isMap := prefault.(map[string]any); isMap {
+				return z.Parse(prefault, pctx)
+			}
+			return zero, issues.CreateInvalidTypeError(core.ZodTypeObject, prefault, pctx)
 		}
 		return zero, issues.CreateInvalidTypeError(core.ZodTypeObject, input, pctx)
 	}
